@@ -205,6 +205,11 @@ class CallBudget(Exception):
     pass
 
 
+class StopSolve(Exception):
+    """raised by the spy to end a run whose partial history already violates the declared scheme (the violation itself is
+    established afterwards by the ordinary replay of the recorded history)"""
+
+
 class Spy:
     """records every call of the right-hand side: (t as float, flattened y, flattened returned slope)"""
 
@@ -216,6 +221,9 @@ class Spy:
         self.tlast = None
         self.since_progress = 0
         self.max_since_progress = 0
+        self.online = None          # callable(log) -> True when the history has already left the declared scheme
+        self.next_online = 256
+        self.stopped_online = False
         self.arg_kinds = set()
         self.t_kinds = set()
 
@@ -250,6 +258,11 @@ class Spy:
                     spy.max_since_progress = spy.since_progress
                 if spy.since_progress > STUCK_CALLS:
                     raise CallBudget()
+            if spy.online is not None and spy.n >= spy.next_online:
+                spy.next_online *= 2
+                if spy.online(spy.log):
+                    spy.stopped_online = True
+                    raise StopSolve()
             return out
         return rhs
 
@@ -363,12 +376,30 @@ class Attempt:
     __slots__ = ("t0", "h", "y0", "K0", "Kmat", "ynew", "fnew", "err", "scale", "status", "tnew", "start", "finite")
 
 
-def replay_adaptive(method, log, ts, y0f, ytf, atol, rtol, obs, key, eps):
+class _Collector:
+    """stands in for Obs when a partial history is replayed while the solver is still running"""
+
+    def __init__(self):
+        self.failed = []
+
+    def check(self, cond, mech, msg, **data):
+        if not cond:
+            self.failed.append((mech, msg))
+        return bool(cond)
+
+
+def replay_adaptive(method, log, ts, y0f, ytf, atol, rtol, obs, key, eps, partial=False):
     """classify every attempted step of the embedded pair from the call history and check it against the reference pair.
-    Internal variables: tau = sigma*t, kappa = sigma*k with sigma = sign(ts[1]-ts[0]) (time reflection)."""
+    Internal variables: tau = sigma*t, kappa = sigma*k with sigma = sign(ts[1]-ts[0]) (time reflection).
+    partial=True: the solver is still running (history incomplete, no result yet): only the checks that a longer history
+    cannot revoke are made (the spy uses this to stop a run that has already left the declared scheme)."""
     R = _ref_t(method)
     s = R["s"]
     rp = Replay()
+    if partial:
+        log = log[:1 + ((len(log) - 1) // s) * s]
+        if len(log) < 1 + s:
+            return rp
     tl = [float(x) for x in ts]
     sig = 1.0 if tl[1] >= tl[0] else -1.0
     if tl[1] == tl[0] and tl[-1] < tl[0]:
@@ -445,13 +476,15 @@ def replay_adaptive(method, log, ts, y0f, ytf, atol, rtol, obs, key, eps):
     if fail is not None:
         obs.check(False, "%s:%s" % (fail[0], key), fail[1])
         return rp
-    prev.status = "accepted"
+    prev.status = "pending" if partial else "accepted"
     # ---- accepted steps: error estimate within tolerance, monotone progress, landing on the requested times
     ttol = 64 * eps * tmag
-    acc_list = [a for a in rp.attempts if a.status != "rejected"]
+    acc_list = [a for a in rp.attempts if a.status == "accepted"]
     for n, a in enumerate(rp.attempts):
         if a.status == "rejected":
             rp.rejected += 1
+            continue
+        if a.status == "pending":
             continue
         rp.accepted += 1
         if a.h == 0.0:
@@ -476,18 +509,18 @@ def replay_adaptive(method, log, ts, y0f, ytf, atol, rtol, obs, key, eps):
                 if k < len(acc_list):
                     fail = ("overshoot", "an accepted step ends at t=%r beyond the requested time ts[%d]=%r without landing on it" % (
                         sig * acc_list[k].tnew, it, tl[it]))
-                else:
+                elif not partial:
                     fail = ("landing", "no accepted step ended on requested time ts[%d]=%r (last step ended at %r)" % (
                         it, tl[it], sig * rp.attempts[-1].tnew))
             break
         while k + 1 < len(acc_list) and abs(acc_list[k + 1].tnew - tau[it]) <= ttol:
             k += 1
         a = acc_list[k]
-        if not torch.equal(ytf[it], a.ynew) and fail is None:
+        if ytf is not None and not torch.equal(ytf[it], a.ynew) and fail is None:
             fail = ("landing_value", "returned y[%d] differs (max %.3g) from the state of the last step that ended on ts[%d]" % (
                 it, _inf(ytf[it] - a.ynew), it))
     else:
-        if k != len(acc_list) - 1 and fail is None:
+        if k != len(acc_list) - 1 and fail is None and not partial:
             fail = ("extra_steps", "%d accepted steps after the one that landed on the last requested time" % (len(acc_list) - 1 - k))
     if fail is not None:
         obs.check(False, "%s:%s" % (fail[0], key), fail[1])
@@ -498,11 +531,12 @@ def replay_adaptive(method, log, ts, y0f, ytf, atol, rtol, obs, key, eps):
 
 
 # ------------------------------------------------------------------------------------------------ running the real thing
-def run_solver(obs, key, rule, ts, y0, method, params=(), opts=None, budget=CALL_BUDGET):
+def run_solver(obs, key, rule, ts, y0, method, params=(), opts=None, budget=CALL_BUDGET, online=None):
     """calls the real solve_ivp with a recording right-hand side; returns (spy, result or None)"""
     from xitorch.integrate import solve_ivp
     tl = [float(x) for x in ts]
     spy = Spy(rule, budget)
+    spy.online = online
     kw = dict(opts or {})
     try:
         with WarnLog():
@@ -512,6 +546,9 @@ def run_solver(obs, key, rule, ts, y0, method, params=(), opts=None, budget=CALL
         obs.check(False, "no_termination:%s" % key,
                   "solve_ivp did not return: %d right-hand-side calls, the last %d at the same time (limits %d / %d)" % (
                       spy.n, spy.since_progress, budget, STUCK_CALLS), ts=tl[:10])
+        return spy, None
+    except StopSolve:
+        obs.count("runs_stopped_by_online_monitor")
         return spy, None
     except Exception as e:  # an exception on an input the property covers
         obs.exc_violation("solve:%s" % key, e, ts=[float(x) for x in ts][:10])
@@ -550,14 +587,26 @@ def solve_and_replay(obs, key, method, rule, ts, y0, params=(), opts=None, budge
         if method != "rk45":
             raise HarnessBug("the default method is rk45")
         obs.count("default_method_calls")
-    spy, yt = run_solver(obs, key, rule, ts, y0, None if via_default else method, params, opts, budget)
+    y0f = _flat0(y0)
+    eps = torch.finfo(y0f.dtype).eps
+    o = opts or {}
+    atol, rtol = float(o.get("atol", 1e-8)), float(o.get("rtol", 1e-5))
+    online = None
+    if method in ADAPTIVE and len(ts) >= 2:
+        def online(log):
+            c = _Collector()
+            replay_adaptive(method, log, ts, y0f, None, atol, rtol, c, key, eps, partial=True)
+            return bool(c.failed)
+    spy, yt = run_solver(obs, key, rule, ts, y0, None if via_default else method, params, opts, budget, online)
+    if spy.stopped_online:
+        # the violation is established by replaying the recorded (partial) history with the real observation record
+        replay_adaptive(method, spy.log, ts, y0f, None, atol, rtol, obs, key, eps, partial=True)
+        return None
     if yt is None:
         return None
     if not basic_checks(obs, key, yt, ts, y0):
         return None
     ytf = _flat(yt)
-    y0f = _flat0(y0)
-    eps = torch.finfo(y0f.dtype).eps
     if len(ts) < 2:
         rp = Replay()
         rp.complete = obs.check(spy.n == 0 or method in ADAPTIVE, "calls:%s" % key, "single time point but %d calls" % spy.n)
@@ -565,8 +614,7 @@ def solve_and_replay(obs, key, method, rule, ts, y0, params=(), opts=None, budge
     if method in FIXED:
         rp = replay_fixed(method, spy.log, ts, ytf, obs, key, eps)
     else:
-        o = opts or {}
-        rp = replay_adaptive(method, spy.log, ts, y0f, ytf, float(o.get("atol", 1e-8)), float(o.get("rtol", 1e-5)), obs, key, eps)
+        rp = replay_adaptive(method, spy.log, ts, y0f, ytf, atol, rtol, obs, key, eps)
         obs.count("steps_accepted", rp.accepted)
         obs.count("steps_rejected", rp.rejected)
         obs.count("steps_zero_length", rp.zero_steps)
